@@ -401,22 +401,25 @@ def stripDecl (s : Str) : Option Str :=
   | '<' :: '?' :: 'x' :: 'm' :: 'l' :: rest => skipPI rest
   | _ => some s
 
+/-- the document after the declaration: tokens, tree, namespaces -/
+def parseBody (body : Str) : Option Doc :=
+  match lex body with
+  | none => none
+  | some ts =>
+    match build BState.init ts with
+    | none => none
+    | some st =>
+      match st.finish with
+      | none => none
+      | some raw =>
+        match resolve [] raw.root with
+        | some r => some ⟨raw.pre, r, raw.post⟩
+        | none => none
+
 /-- characters → document (`none` = not well-formed, or outside the supported subset) -/
 def parse (s : Str) : Option Doc :=
   match stripDecl s with
   | none => none
-  | some body =>
-    match lex body with
-    | none => none
-    | some ts =>
-      match build BState.init ts with
-      | none => none
-      | some st =>
-        match st.finish with
-        | none => none
-        | some raw =>
-          match resolve [] raw.root with
-          | some r => some ⟨raw.pre, r, raw.post⟩
-          | none => none
+  | some body => parseBody body
 
 end Capella.Xml
